@@ -845,8 +845,8 @@ impl Engine for C11 {
     }
     fn n_cases(&self, tier: Tier) -> u64 {
         match tier {
-            Tier::Quick => 12_000,
-            Tier::Thorough => 400_000,
+            Tier::Quick => 8_000,
+            Tier::Thorough => 150_000,
         }
     }
     fn run_case(&self, k: u64, seed: u64, tier: Tier, stats: &mut Stats) -> Vec<Violation> {
